@@ -435,10 +435,10 @@ func (*Ufs) Create(req *SrvReq) {
 		mode := tc.Perm & 0777
 		if req.Conn.Dotu {
 			if tc.Perm&DMSETUID > 0 {
-				mode |= syscall.S_ISUID
+				mode |= uint32(os.ModeSetuid)
 			}
 			if tc.Perm&DMSETGID > 0 {
-				mode |= syscall.S_ISGID
+				mode |= uint32(os.ModeSetgid)
 			}
 		}
 		file, e = os.OpenFile(path, omode2uflags(tc.Mode)|os.O_CREATE, os.FileMode(mode))
@@ -651,10 +651,10 @@ func (u *Ufs) Wstat(req *SrvReq) {
 		mode := dir.Mode & 0777
 		if req.Conn.Dotu {
 			if dir.Mode&DMSETUID > 0 {
-				mode |= syscall.S_ISUID
+				mode |= uint32(os.ModeSetuid)
 			}
 			if dir.Mode&DMSETGID > 0 {
-				mode |= syscall.S_ISGID
+				mode |= uint32(os.ModeSetgid)
 			}
 		}
 		e := os.Chmod(fid.path, os.FileMode(mode))
